@@ -177,9 +177,12 @@ func checkC16(c *Ctx) {
 				other = cmp.X
 			}
 			if k, ok := constInt(other); ok && k == 0 {
-				if (cmp.Op == token.EQL && taken) || (cmp.Op == token.NEQ && !taken) || (cmp.Op == token.LEQ && cmp.X == nVal && taken) || (cmp.Op == token.GTR && cmp.X == nVal && !taken) {
+				if (cmp.Op == token.EQL && taken) || (cmp.Op == token.NEQ && !taken) {
 					return false
 				}
+			}
+			if factNonPositive(cmp, taken, nVal) {
+				return false
 			}
 		}
 		// err == io.EOF
